@@ -76,10 +76,10 @@ class ImmutableMixin:
                             tuple,
                             bool,
                             enum.Enum,
-                            ImmutableMixin,
                             ImmutableStructure,
                         ),
                     )
+                    and not (isinstance(value, ImmutableMixin) and value._is_immutable())
                     and self._is_immutable()
             )
             else value
